@@ -193,3 +193,63 @@ def _nic2(pm, v):
 @reg("commb.cs20")
 def _cs20(pm, v):
     return enc.res(pm.commb.cs20(hx(v)))
+
+
+# ---- CPR (C03-C06) ----
+def _ts(v):
+    t0, t1 = v["t0"], v["t1"]
+    if v.get("dt"):
+        import datetime
+        base = datetime.datetime(2020, 1, 1)
+        return base + datetime.timedelta(seconds=t0), base + datetime.timedelta(seconds=t1)
+    return t0, t1
+
+
+def _ref(v):
+    return 360.0 * v["r"] / 1048576, 360.0 * v["s"] / 1048576
+
+
+@reg("adsb.position")
+def _pos(pm, v):
+    t0, t1 = _ts(v)
+    m0, m1 = hx(v, "f0"), hx(v, "f1")
+    if v.get("hasref"):
+        la, lo = _ref(v)
+        return enc.pos(pm.adsb.position(m0, m1, t0, t1, la, lo), v["kind"])
+    return enc.pos(pm.adsb.position(m0, m1, t0, t1), v["kind"])
+
+
+@reg("adsb.airborne_position")
+def _apos(pm, v):
+    t0, t1 = _ts(v)
+    return enc.pos(pm.adsb.airborne_position(hx(v, "f0"), hx(v, "f1"), t0, t1), "air")
+
+
+@reg("adsb.surface_position")
+def _spos(pm, v):
+    t0, t1 = _ts(v)
+    la, lo = _ref(v)
+    return enc.pos(pm.adsb.surface_position(hx(v, "f0"), hx(v, "f1"), t0, t1, la, lo), "surf")
+
+
+@reg("adsb.position_with_ref")
+def _pwr(pm, v):
+    la, lo = _ref(v)
+    return enc.pos(pm.adsb.position_with_ref(hx(v), la, lo), v["kind"])
+
+
+@reg("adsb.airborne_position_with_ref")
+def _apwr(pm, v):
+    la, lo = _ref(v)
+    return enc.pos(pm.adsb.airborne_position_with_ref(hx(v), la, lo), "air")
+
+
+@reg("adsb.surface_position_with_ref")
+def _spwr(pm, v):
+    la, lo = _ref(v)
+    return enc.pos(pm.adsb.surface_position_with_ref(hx(v), la, lo), "surf")
+
+
+@reg("common.cprNL")
+def _nl(pm, v):
+    return enc.res(pm.common.cprNL(v["x"]))
